@@ -286,6 +286,6 @@ func roundTrip(orig any, root V, st *Stats) error {
 
 func init() {
 	Register("C01",
-		"rapid-generated value trees (one in eight holds ONE container instance at two places; now and then 1001-1500 nesting levels) (list or object root; leaves and keys from class tables: whole-valued/-0/subnormal/extreme/17-digit floats, edge ints, strings with C0/DEL/C1/U+2028/U+FFFD/non-characters/astral/JSON-special runes, empty key; deep-chain class). Non-trivial = tree has at least one hard leaf (whole-valued, -0, subnormal, exponent-form or 17-digit float; |int| >= 2^31; string or key with a rune outside printable ASCII or a JSON-special character; empty key). Distinct = distinct FNV-64a hash of the case JSON. One case in four (not the shared-instance ones) builds the container through the construction routes of BuildVariant (NewListOf+Replace, Concat of halves, SubList of a longer list, typed-slice origin, spare capacity, parser); one in six first hands both parsers the container's own text cut at a drawn byte (a failed parse, usually inside a literal) and only then parses the whole text; floats include values 1-3 ulps beside short decimals; nested mutations include Sort of a list of several kinds and clear-and-refill with other keys.",
+		"rapid-generated value trees (one in eight holds ONE container instance at two places; now and then 1001-1500 nesting levels) (list or object root; leaves and keys from class tables: whole-valued/-0/subnormal/extreme/17-digit floats, edge ints, strings with C0/DEL/C1/U+2028/U+FFFD/non-characters/astral/JSON-special runes, empty key; deep-chain class). Non-trivial = tree has at least one hard leaf (whole-valued, -0, subnormal, exponent-form or 17-digit float; |int| >= 2^31; string or key with a rune outside printable ASCII or a JSON-special character; empty key). Distinct = distinct FNV-64a hash of the case JSON. One case in four (not the shared-instance ones) builds the container through the construction routes of BuildVariant (NewListOf+Replace, Concat of halves, SubList of a longer list, typed-slice origin, spare capacity, parser); one in six first hands both parsers the container's own text cut at a drawn byte (a failed parse, usually inside a literal) and only then parses the whole text; floats include values 1-3 ulps beside short decimals; nested mutations include Sort of a list of several kinds and clear-and-refill with other keys. After the second generation both parse results are modified and the unchanged text is parsed a third time: it must still give the original content.",
 		GenC01, CheckC01)
 }
